@@ -22,6 +22,7 @@ import (
 	"verif/canon"
 	"verif/harness/appx"
 	"verif/report"
+	"verif/shim/vos"
 )
 
 // C10 — no transaction can crash shuttermint; refused transactions have no effect.
@@ -408,6 +409,31 @@ func c10Inject(w *appx.World, b *c10base, injs []c10Inj) (string, string, string
 			ca := appx.Clone(a)
 			if p := guard(func() { cr = ca.CheckTx(abcitypes.RequestCheckTx{Tx: x.Tx}) }); p != "" {
 				return "", "C10/panic-in-checktx", fmt.Sprintf("CheckTx panics on %s (%s): %s", x.Desc, x.Class, p)
+			}
+			// the same mempool check on a node restarted from the state saved at this point
+			// (real PersistToDisk / LoadShutterAppFromFile on the in-memory file system)
+			if x.Class != "member" {
+				vos.Cur = vos.New()
+				src := appx.Clone(a)
+				src.Gobpath = "/data/c10-restart.gob"
+				if err := src.PersistToDisk(); err != nil {
+					return "", "C10/state-cannot-be-saved", err.Error()
+				}
+				loaded, err := app.LoadShutterAppFromFile("/data/c10-restart.gob")
+				if err != nil {
+					return "", "C10/state-cannot-be-loaded", err.Error()
+				}
+				var crR abcitypes.ResponseCheckTx
+				if p := guard(func() { crR = loaded.CheckTx(abcitypes.RequestCheckTx{Tx: x.Tx}) }); p != "" {
+					return "", "C10/panic-in-checktx", fmt.Sprintf("CheckTx of a restarted node panics on %s (%s): %s", x.Desc, x.Class, p)
+				}
+				if crR.Code == 0 {
+					sig := "C10/refusable-tx-passes-checktx"
+					if x.Class == "foreign" {
+						sig = "C10/foreign-tx-passes-checktx"
+					}
+					return "", sig, fmt.Sprintf("the mempool check of a node restarted from its saved state accepts a %s transaction (%s); the node that never stopped answers code %d (%s)", x.Class, x.Desc, cr.Code, cr.Log)
+				}
 			}
 			var dr abcitypes.ResponseDeliverTx
 			if p := guard(func() { dr = a.DeliverTx(abcitypes.RequestDeliverTx{Tx: x.Tx}) }); p != "" {
